@@ -1263,3 +1263,38 @@ pub(crate) fn h_check_this_refs() {
     let resolves = has1 && (!two || has2);
     vrt_check((n == 0) == resolves, "C11 a THIS. reference is reported exactly when some containing structure lacks the component");
 }
+
+// ------------------------------------------------------------------ C01 / C02 on the repository's own 340-line sample (touches every element kind once)
+
+const SAMPLE_2: &str = include_str!("sample_a2l_2.txt");
+
+pub(crate) fn h_sample_roundtrip() {
+    let (file, _log) = load_from_string(SAMPLE_2, None, false).unwrap();
+    let out1 = file.write_to_string();
+    let a = significant(SAMPLE_2);
+    let b = significant(&out1);
+    vrt_check(a.len() == b.len(), "C02 load+write keeps the number of significant tokens of the sample document");
+    let n = if a.len() < b.len() { a.len() } else { b.len() };
+    let mut mismatches = 0u32;
+    for i in 0..n {
+        let same = if a[i].0 == 5 && b[i].0 == 5 {
+            number_value(&a[i].1) == number_value(&b[i].1)
+        } else if a[i].0 == 0 && b[i].0 == 4 {
+            // an identifier used in place of a string (accepted in non-strict mode) is written as the string it denotes
+            b[i].1.len() == a[i].1.len() + 2 && &b[i].1[1..b[i].1.len() - 1] == a[i].1.as_str()
+        } else {
+            a[i].0 == b[i].0 && a[i].1 == b[i].1
+        };
+        if !same { mismatches += 1; }
+    }
+    vrt_observe_u64(mismatches as u64);
+    match load_from_string(&out1, None, false) {
+        Ok((file2, _)) => {
+            vrt_check(file2 == file, "C01 load(write(M)) == M on the sample document");
+            let out2 = file2.write_to_string();
+            vrt_check(out2 == out1, "C01 the second write of the sample document is identical to the first");
+        }
+        Err(_) => vrt_check(false, "C01 the written sample document loads again"),
+    }
+    vrt_check(mismatches == 0, "C02 load+write keeps every significant token of the sample document in order (numbers by value)");
+}
